@@ -37,14 +37,17 @@ type c06Case struct {
 	LA, SW, Rel  bool
 	X1, Y1, X, Y uint32
 	VB, Rect     int
-	Desc         string `json:"desc,omitempty"`
+	// Prefix: operations between StartPath and the judged arc. 0 none; 1 a proper arc; 2 a proper
+	// arc then a zero-radius arc; 3 a cubic then a zero-radius arc. They end at (X1,Y1).
+	Prefix int    `json:"prefix,omitempty"`
+	Desc   string `json:"desc,omitempty"`
 }
 
 func init() {
 	mc.Register(&mc.Check{
 		ID:    "C06",
 		Level: "exploration",
-		Rule: "engine P: radii {0,0.5,1,3,20,-3}^2 x rotation {0,1/24,1/8,1/4,0.3,0.5,0.9,-0.1,1.25} x 4 flag combinations x start and end points from a 7x7 (thorough 12x12) lattice plus three end points 1/64 away from the start (start != end) x {absolute, relative} x 4 viewBoxes x 3 rectangles (non-uniform scale, off-origin), each driven into a real Renderer over a recording rasteriser. " +
+		Rule: "engine P: radii {0,0.5,1,3,20,-3}^2 x rotation {0,1/24,1/8,1/4,0.3,0.5,0.9,-0.1,1.25} x 4 flag combinations x start and end points from a 7x7 (thorough 12x12) lattice plus three end points 1/64 away from the start (start != end) x {absolute, relative} x 4 viewBoxes x 3 rectangles (non-uniform scale, off-origin), each driven into a real Renderer over a recording rasteriser; for two lattice columns of end points the arc is also judged as a later operation of its path (after a proper arc; after a proper arc and a zero-radius arc; after a cubic and a zero-radius arc). " +
 			"Oracle: zero radius => one LineTo to the mapped end point; else 1..4 CubeTo ending at the mapped end point; every cubic's end point and its points at t=1/4,1/2,3/4, un-mapped to viewBox space, lie on the ellipse given by an independent SVG F.6.5 centre computation (radii scaled up when too small); the accumulated sweep has the sign of the sweep flag and exceeds a half turn iff large-arc. " +
 			"distinct = (number of cubics, scaled-up, flags, zero radius); non-trivial = arc emitted as cubics",
 		Assumptions: []string{"configurations within 1e-6 of a half turn are skipped and counted (flags do not determine the arc there)", "tolerances: 1e-4 R for end points, 5e-4 R for interior points (standard 4/3 tan(theta/4) construction, <= 90 degree pieces)"},
@@ -76,6 +79,14 @@ func init() {
 									cs := c06Case{RX: f32b(rx), RY: f32b(ry), Rot: f32b(rot), LA: fl&1 != 0, SW: fl&2 != 0, Rel: rel,
 										X1: f32b(p1[0]), Y1: f32b(p1[1]), X: f32b(p2[0]), Y: f32b(p2[1]), VB: vb, Rect: r}
 									st.check(&cs)
+									// the same arc as the second, third ... operation of its path (lattice end points only)
+									if vb == 0 && (p2[0] == -7 || p2[0] == 3.25) {
+										for pf := 1; pf <= 3; pf++ {
+											c := cs
+											c.Prefix = pf
+											st.check(&c)
+										}
+									}
 								}
 							}
 						}
@@ -119,7 +130,21 @@ func (st *c06State) check(cs *c06Case) {
 	st.ras.ResetLog()
 	z.SetRasterizer(&st.ras, rect)
 	z.Reset(vb, ivg.DefaultPalette)
-	z.StartPath(0, x1, y1)
+	switch cs.Prefix {
+	case 0:
+		z.StartPath(0, x1, y1)
+	case 1:
+		z.StartPath(0, x1-3, y1+1)
+		z.AbsArcTo(2.5, 4, 0.1, false, true, x1, y1)
+	case 2:
+		z.StartPath(0, x1-3, y1+1)
+		z.RelArcTo(2.5, 4, 0.1, true, false, 5, -2)
+		z.AbsArcTo(0, 3, 0, false, false, x1, y1)
+	default:
+		z.StartPath(0, x1+2, y1+2)
+		z.RelCubeTo(1, 0, 2, 1, 3, 3)
+		z.RelArcTo(1, 0, 0.25, true, true, -5, -5)
+	}
 	n0 := len(st.ras.Calls)
 	ex, ey := x, y // arguments
 	if cs.Rel {
@@ -131,7 +156,7 @@ func (st *c06State) check(cs *c06Case) {
 	calls := st.ras.Calls[n0:]
 	z.ClosePathEndPath()
 	desc := func() string {
-		return fmt.Sprintf("viewBox %v rect %v: from (%g,%g) arc(rx=%g ry=%g rot=%g large=%v sweep=%v rel=%v) to args (%g,%g)", vb, rect, x1, y1, rx, ry, rot, cs.LA, cs.SW, cs.Rel, ex, ey)
+		return fmt.Sprintf("viewBox %v rect %v prefix %d: from (%g,%g) arc(rx=%g ry=%g rot=%g large=%v sweep=%v rel=%v) to args (%g,%g)", vb, rect, cs.Prefix, x1, y1, rx, ry, rot, cs.LA, cs.SW, cs.Rel, ex, ey)
 	}
 	fail := func(key, what string) {
 		c := *cs
